@@ -286,7 +286,11 @@ Definition c04_run (v : val) : val :=
     match BoxModel.parse (S (length bs)) bs with Some l => VL [of_ints (enc_list l)] | None => VL [] end
   else if mode =? 3 then
     (* typed body: (3 type version flags n1 n2 bytes) -> ((values) rest) where a value is (0 z) or (1 bytes) *)
-    let l := FieldModel.layout_of (vint (vnth 1 v)) (vint (vnth 2 v)) (vint (vnth 3 v)) (Z.to_nat (vint (vnth 4 v))) (Z.to_nat (vint (vnth 5 v))) in
+    (* type 18 = senc: n1 = iv size, the 8th element lists the per-sample subsample counts, -1 = no count field *)
+    let l := if vint (vnth 1 v) =? 18 then
+               FieldModel.l_senc (vint (vnth 3 v)) (Z.to_nat (vint (vnth 4 v)))
+                 (map (fun c => if c <? 0 then None else Some (Z.to_nat c)) (vints (vnth 7 v)))
+             else FieldModel.layout_of (vint (vnth 1 v)) (vint (vnth 2 v)) (vint (vnth 3 v)) (Z.to_nat (vint (vnth 4 v))) (Z.to_nat (vint (vnth 5 v))) in
     match FieldModel.dec_fields l (vints (vnth 6 v)) with
     | Some (vs, rest) =>
         VL [VL (map (fun x => match x with FieldModel.VU z => VL [VI 0; VI z] | FieldModel.VB b => VL [VI 1; of_ints b] end) vs); of_ints rest;
@@ -428,6 +432,10 @@ Definition c18_manifest (v : val) : val :=
   of_ints (map c18_mcode (manifest_errors f)).
 Definition c18_run (v : val) : val :=
   if vint (vnth 0 v) =? -1 then c18_manifest v else
+  if vint (vnth 0 v) =? -2 then
+    (* (-2 timeline? timescale num den idx audio?) -> tolerance *)
+    (if 0 <? vint (vnth 1 v) then VI (tol_timeline (vint (vnth 2 v)) (vint (vnth 3 v)) (vint (vnth 4 v)) (0 <? vint (vnth 6 v)))
+     else VI (tol_template (vint (vnth 2 v)) (vint (vnth 3 v)) (vint (vnth 4 v)) (vint (vnth 5 v)) (0 <? vint (vnth 6 v)))) else
   let z n := vint (vnth n v) in
   let b n := 0 <? vint (vnth n v) in
   let f := {| g_status := z 0%nat; g_has_moof := b 1%nat; g_has_mdat := b 2%nat; g_first_sample := z 3%nat; g_payload_start := z 4%nat;
